@@ -290,11 +290,22 @@ def replay_ignore(data):
 # =====================================================================================================
 # (c) HypCluster: minimal-loss assignment; clusters updated from their own clients only; empty clusters untouched
 # =====================================================================================================
-def hyp_alg(X, y, sopt_kind):
+def hyp_alg(X, y, sopt_kind, backend='jit'):
   F = _fx()
   o = F['optimizers']
   sopt = o.sgd(1.0) if sopt_kind == 'sgd' else o.sgd(1.0, momentum=0.5)
-  return F['hyp_cluster'].hyp_cluster(lin_pel(X, y), o.sgd(0.5), sopt, F['cds'].PaddedBatchHParams(batch_size=2), hp(2)), sopt
+  mk = lambda: F['hyp_cluster'].hyp_cluster(lin_pel(X, y), o.sgd(0.5), sopt, F['cds'].PaddedBatchHParams(batch_size=2), hp(2))
+  if backend == 'pmap':
+    # the pmap backend reorders clients by batch count; symbolically through the API model, concretely on forced host devices
+    from fedjax.core import for_each_client as fec
+    from . import c02
+    if isinstance(X, jax.core.Tracer) or jax.local_device_count() < 2:
+      with c02.pmap_model(2):
+        with fec.for_each_client_backend(fec.ForEachClientPmapBackend()):
+          return mk(), sopt
+    with fec.for_each_client_backend(fec.ForEachClientPmapBackend(jax.local_devices()[:2])):
+      return mk(), sopt
+  return mk(), sopt
 
 
 def hyp_code(cfg):
@@ -302,7 +313,7 @@ def hyp_code(cfg):
   sizes, K = cfg['sizes'], cfg['clusters']
 
   def fn(ws, bs, mom, X, y, keys):
-    alg, sopt = hyp_alg(X, y, cfg['sopt'])
+    alg, sopt = hyp_alg(X, y, cfg['sopt'], cfg.get('backend', 'jit'))
     cps = [{'w': ws[k], 'b': bs[k]} for k in range(K)]
     st0 = alg.init(cps)
     if cfg['sopt'] == 'momentum':   # arbitrary pre-state of the server optimizer
@@ -312,7 +323,12 @@ def hyp_code(cfg):
       opt_states = st0.opt_states
     state = F['hyp_cluster'].ServerState(cps, opt_states)
     clients = [(cid, d, keys[i]) for i, (cid, d) in enumerate(zip(ids(sizes), datasets(sizes)))]
-    new, diag = alg.apply(state, clients)
+    if cfg.get('backend') == 'pmap' and (isinstance(X, jax.core.Tracer) or jax.local_device_count() < 2):
+      from . import c02
+      with c02.pmap_model(2):
+        new, diag = alg.apply(state, clients)
+    else:
+      new, diag = alg.apply(state, clients)
     assign = [diag[cid]['cluster_id'] for cid in ids(sizes)]
     return {'params': new.cluster_params, 'opt': [_trace_of(s) for s in new.opt_states] if cfg['sopt'] == 'momentum' else [],
             'assign': jnp.stack([jnp.asarray(a) for a in assign])}
@@ -395,10 +411,18 @@ def run_hyp(run, cfg, timeout):
     ctx = sj.Ctx()
 
     def assign_fn(ws_, bs_, mom_, X_, y_, keys_):
-      ev = F['models'].AverageLossEvaluator(lin_pel(X_, y_))
-      cps = [{'w': ws_[k], 'b': bs_[k]} for k in range(K)]
-      clients = [(cid, d, keys_[i]) for i, (cid, d) in enumerate(zip(ids(sizes), datasets(sizes)))]
-      res = F['hyp_cluster'].maximization_step(ev, cps, clients, F['cds'].PaddedBatchHParams(batch_size=2))
+      import contextlib
+      from fedjax.core import for_each_client as fec
+      from . import c02
+      ctxm = contextlib.ExitStack()
+      if cfg.get('backend') == 'pmap':
+        ctxm.enter_context(c02.pmap_model(2))
+        ctxm.enter_context(fec.for_each_client_backend(fec.ForEachClientPmapBackend()))
+      with ctxm:
+        ev = F['models'].AverageLossEvaluator(lin_pel(X_, y_))
+        cps = [{'w': ws_[k], 'b': bs_[k]} for k in range(K)]
+        clients = [(cid, d, keys_[i]) for i, (cid, d) in enumerate(zip(ids(sizes), datasets(sizes)))]
+        res = F['hyp_cluster'].maximization_step(ev, cps, clients, F['cds'].PaddedBatchHParams(batch_size=2))
       return jnp.stack([jnp.asarray(res[cid]) for cid in ids(sizes)])
     out, pcs, _, _ = sj.run_symbolic(assign_fn, jh.abstract_of(sym), sym, ctx=ctx)
     h = jh.Harness(run, nm, timeout)
@@ -445,7 +469,7 @@ def run_hyp(run, cfg, timeout):
     g, model, _ = viol[0]
     args = jh.concrete_args(model, sym) if model is not None else [np.ones(a.shape) for a in sym[:5]] + [np.zeros(keys.shape, np.uint32)]
     data = {'kind': 'hyp', 'cfg': cfg, 'args': [np.asarray(a).tolist() for a in args]}
-    ok, msg = replay_subprocess('C17', data)
+    ok, msg = replay_subprocess('C17', data, {'XLA_FLAGS': '--xla_force_host_platform_device_count=2'} if cfg.get('backend') == 'pmap' else None)
     run.violation('hypcluster:' + g.split('[')[0].split('|')[0][:40], 'HypCluster invariant %s fails: %s' % (g, msg), data, ok)
 
 
@@ -711,7 +735,19 @@ def replay_apfl(data):
   return bool(msgs), '; '.join(msgs) or 'invariants hold'
 
 
+def apfl_eval_probe(run):
+  """Concrete probe: APFL's eval function on never-seen clients leaves client_states as it was (state only for participants)."""
+  from . import c10
+  bad, msg = c10.concrete_apfl_eval_purity()
+  run.ob('concrete:apfl-eval-stores-no-client-state', 'sat' if bad else 'unsat', detail=msg if bad else None, nontrivial=False)
+  if bad:
+    run.violation('apfl:eval-adds-client-state', 'APFL stores client state for a client that has not participated: %s' % msg, {'kind': 'apfl_eval'}, True)
+
+
 def replay(data):
+  if data.get('kind') == 'apfl_eval':
+    from . import c10
+    return c10.concrete_apfl_eval_purity()
   return {'agnostic': replay_agnostic, 'ignore': replay_ignore, 'hyp': replay_hyp, 'mime': replay_mime, 'apfl': replay_apfl}[data['kind']](data)
 
 
@@ -728,7 +764,8 @@ def check(run):
                       'invariant is inductive', 'MimeLite: clip norm > 0, plus clip norm 0 with non-zero updates (0/0 corner excluded)',
                       'finite inputs; floats read as reals']
   ag = [dict(sizes=[2, 1], domains=2, window=2), dict(sizes=[1], domains=3, window=1)]
-  hy = [dict(sizes=[2, 1], clusters=2, sopt='momentum'), dict(sizes=[1, 1, 1], clusters=2, sopt='sgd')]
+  hy = [dict(sizes=[2, 1], clusters=2, sopt='momentum'), dict(sizes=[1, 1, 1], clusters=2, sopt='sgd'),
+        dict(sizes=[1, 3], clusters=2, sopt='sgd', backend='pmap')]      # the pmap backend yields clients in a different order
   mi = [dict(sizes=[2, 1], clip='sym'), dict(sizes=[2], clip=0.0)]
   ap = [dict(sizes=[2, 1], known=[0], participants=[0, 1]), dict(sizes=[2, 1], known=[1], participants=[0])]
   if thorough:
@@ -746,3 +783,4 @@ def check(run):
     run_mime(run, cfg, timeout)
   for cfg in ap:
     run_apfl(run, cfg, timeout)
+  apfl_eval_probe(run)
